@@ -852,3 +852,16 @@ Theorem line_reversal_refuted :
     intersects_shape (-180) (Ln vs None) (Ln us None) = Ok true /\
     intersects_shape (-180) (Ln vs None) (Ln (rev us) None) = Ok false.
 Proof. exists [(0, 0); (4, 0)], [(4, 0); (8, 0)]. split; vm_compute; reflexivity. Qed.
+
+(* do_edges_intersect in planar terms *)
+Theorem sweep_meaning ea eb :
+  sweep hit ea eb = Ok true <->
+  exists a b, In a ea /\ In b eb /\ nonparallel a b /\
+    exists xn yn dv, 0 < dv /\ on_seg_q a xn yn dv /\ on_seg_q b xn yn dv.
+Proof.
+  rewrite sweep_hit_brute. unfold brute. split.
+  - intros [= H]. apply existsb_exists in H as [a [Ha H]]. apply existsb_exists in H as [b [Hb H]].
+    apply hit_spec in H as [H1 H2]. exists a, b. auto.
+  - intros [a [b [Ha [Hb [H1 H2]]]]]. f_equal. apply existsb_exists. exists a. split; [exact Ha|].
+    apply existsb_exists. exists b. split; [exact Hb|]. apply hit_spec. auto.
+Qed.
